@@ -60,6 +60,10 @@ type vpipe struct {
 	block    bool // Read waits while empty (used during Dial/doHandshake)
 	closed   bool
 	frag     func() int
+	// hook runs (outside the lock) after every Read that returned bytes: the
+	// full-duplex cases use it to operate the reader's own sending side
+	// between two fragments of an inbound record
+	hook     func()
 	written  int
 	flipAt   int
 	flipXor  byte
@@ -119,6 +123,14 @@ func (p *vpipe) Write(b []byte) (int, error) {
 }
 
 func (p *vpipe) Read(b []byte) (int, error) {
+	n, err := p.readLocked(b)
+	if n > 0 && p.hook != nil {
+		p.hook()
+	}
+	return n, err
+}
+
+func (p *vpipe) readLocked(b []byte) (int, error) {
 	p.mu.Lock()
 	defer p.mu.Unlock()
 	for len(p.buf) == 0 {
@@ -240,6 +252,7 @@ type c11 struct {
 	nKey     int
 	nMach    int
 	nJunk    uint64
+	midMach  *vmach // machine whose read is in progress (its rn/re are in flux)
 	fullSearches int
 	keys     map[string]*kinfo
 	stats    map[string]int
@@ -434,8 +447,12 @@ func (c *c11) obs(v *vmach) string {
 			v.keyHist = append(v.keyHist, v.lastRecv)
 		}
 	}
-	return fmt.Sprintf("sn=%d se=%d rn=%d re=%d hl=%d bl=%d", v.m.sendCipher.nonce, v.sendRot,
-		v.m.recvCipher.nonce, v.recvRot, len(v.m.nextHeaderSend), len(v.m.nextBodySend))
+	mid := ""
+	if c.midMach == v {
+		mid = " mid=1"
+	}
+	return fmt.Sprintf("sn=%d se=%d rn=%d re=%d hl=%d bl=%d%s", v.m.sendCipher.nonce, v.sendRot,
+		v.m.recvCipher.nonce, v.recvRot, len(v.m.nextHeaderSend), len(v.m.nextBodySend), mid)
 }
 
 // ---- handshake operations ---------------------------------------------------
@@ -915,6 +932,75 @@ func (c *c11) caseStream(n int, bigP float64) {
 		}
 	}
 	// one more read on the drained pipes: EOF, state untouched
+	c.read(R, I.out)
+	c.read(I, R.out)
+	c.endCase()
+}
+
+// duplexFrag hands out inbound bytes in small PRNG-chosen fragments.
+func (c *c11) duplexFrag() func() int {
+	return func() int {
+		return []int{1, 1, 2, 2, 3, 5, 16, 17, 18, 19, 1 + c.rng.Intn(40), 1 + c.rng.Intn(3000), 0}[c.rng.Intn(13)]
+	}
+}
+
+// caseDuplex: both directions active on the same pair of Machines; every read
+// receives its record in fragments, and between fragments the READING machine
+// buffers and (partially) flushes messages of its own in the other direction,
+// the way lnd's readHandler and writeHandler share one Machine.
+func (c *c11) caseDuplex(n int, bigP float64) {
+	c.startCase("duplex")
+	I, R := c.honest()
+	ms := [2]*vmach{I, R}
+	var sent, recvd [2]int // index = writer
+	pending := func(v *vmach) bool { return len(v.m.nextHeaderSend)+len(v.m.nextBodySend) > 0 }
+	for recvd[0] < n || recvd[1] < n {
+		d := c.rng.Intn(2)
+		w, r := ms[d], ms[1-d]
+		if sent[d] == recvd[d] {
+			if sent[d] >= n {
+				continue
+			}
+			before := c.stats["write_ok"]
+			c.sendOne(w, c.randMsg(c.pickSize(sent[d], bigP)))
+			sent[d] += c.stats["write_ok"] - before
+			continue
+		}
+		// r reads w's next record in fragments; in between r works on its own sending side
+		acts := 0
+		w.out.frag = c.duplexFrag()
+		w.out.hook = func() {
+			if acts >= 4 || c.rng.Intn(3) != 0 {
+				return
+			}
+			acts++
+			if !pending(r) {
+				if c.write(r, c.randMsg(c.pickSize(sent[1-d], bigP))) == "ok" {
+					sent[1-d]++
+				}
+				if c.rng.Intn(2) == 0 {
+					return
+				}
+			}
+			if c.rng.Intn(3) == 0 {
+				c.flush(r, -1, false)
+			} else {
+				c.flush(r, c.pickBudget(r), c.rng.Intn(3) == 0)
+			}
+		}
+		c.midMach = r
+		if c.rng.Intn(3) == 0 {
+			c.readSplit(r, w.out)
+		} else {
+			c.read(r, w.out)
+		}
+		c.midMach = nil
+		w.out.frag, w.out.hook = nil, nil
+		recvd[d]++
+		if pending(r) {
+			c.flush(r, -1, false)
+		}
+	}
 	c.read(R, I.out)
 	c.read(I, R.out)
 	c.endCase()
